@@ -117,8 +117,10 @@ def replay_fn(c):
                     break
             if c["how"] == 2:
                 g.close()
-        again = [(s, e, len(d)) for d, s, e in used.tokenize(oracles.CSource(f2))]
-        fresh = [(s, e, len(d)) for d, s, e in mkt().tokenize(oracles.CSource(f2))]
+        def sig(toks):
+            return [(s, e, ["2:%d" % f2.index(f) if any(f is g for g in f2) else "1:%d" % f.pos for f in d]) for d, s, e in toks]
+        again = sig(used.tokenize(oracles.CSource(f2)))
+        fresh = sig(mkt().tokenize(oracles.CSource(f2)))
     except Exception as ex:
         return [("C20: reused tokenizer raises %s" % type(ex).__name__, "%s after first stream '%s': %s" % (tok.describe(c), tok.stream_str(c["first"]), ex))]
     if again == fresh:
@@ -159,7 +161,7 @@ def run(rep):
                     hn, next(r for r in ex.results if r["status"] == "stale_differs").get("stale")))
     rep.witness("stale-state over-approximation finds no dependence", not stale_diff)
     for with_init in (False, True):
-        for mode in ((0,) if rep.tier == "quick" and with_init else tok.MODES):
+        for mode in (((0,) if with_init else (0, 6)) if rep.tier == "quick" else tok.MODES):
             hn = "history[N1<=%d,N2<=%d,mode=%d,%s]" % (b["N1"], b["N2"], mode, "init" if with_init else "noinit")
             ex = explore(history_harness(core, b["N1"], b["N2"], mode, with_init))
             rep.add_exploration(hn, ex, bounds={"first": b["N1"], "second": b["N2"], "mode": mode})
